@@ -11,6 +11,15 @@
     c07.ref.lists                                 → the hand-written lists (dimension-preserving, unitless-result)
     c07.expected <func> <operands> <flags>        → the reference expectation for a call form
     c07.attach <func> <variant> <sig> …           → C06's `Np.run` with the unit rule filled in (label of leaf 0)
+    c07.memo <func> <variant>                     → the regenerated memo configuration of the handler (`m,r,e,s`)
+    c07.history <func> <variant> <groups> <expos> <init> <events>
+                                                  → `LabelMemo.run` with the regenerated configuration of that row
+                                                    (handler rows and memoised unit rules `unyt.array._x_unit rule`):
+                                                    log2(base_value) of the label of every call of the history, and
+                                                    `LabelMemo.missesOf` (number of cache misses)
+                                                    (groups `0,1`; expos `2,1/2` per group; init `r.x=k;…`;
+                                                    events `c:r:s` (call on symbol set s of registry r: symbol
+                                                    3s+g for group g) | `m:r:s:k0,k1,k2` (re-scale set s of r))
 -/
 import UnytModel.DriverBase
 import UnytModel.UnitRules
@@ -19,6 +28,9 @@ import UnytModel.Generated.UnitRules
 import UnytModel.Generated.Handlers
 import UnytModel.Ref.C07Degrees
 import UnytModel.Ref.C07Exclusions
+import UnytModel.LabelMemo
+import UnytModel.Generated.C07Memo
+import UnytModel.Generated.C07RuleMemo
 
 namespace Unyt
 open Unyt.UR
@@ -82,8 +94,68 @@ def c07LabelOut (u : String → Float) (env : Env) (lab : List (String × Expo))
     ";".intercalate (l'.map fun (g, q) => g ++ ":" ++ ratStr q) ++ "|" ++ bitsStr (labelScale u l')
   | none => "?"
 
+def c07Rat (s : String) : Option Rat :=
+  match s.splitOn "/" with
+  | [a] => a.toInt?.map fun n => (n : Rat)
+  | [a, b] => do
+    let n ← a.toInt?
+    let d ← b.toNat?
+    if d == 0 then none else some ((n : Rat) / (d : Rat))
+  | _ => none
+
+def c07HistInit (s : String) : List ((Nat × Nat) × Int) :=
+  if s == "" then [] else
+  (s.splitOn ";").filterMap fun item =>
+    match item.splitOn "=" with
+    | [rx, k] => (match rx.splitOn "." with
+      | [r, x] => do
+        let r ← r.toNat?
+        let x ← x.toNat?
+        let k ← k.toInt?
+        some ((r, x), k)
+      | _ => none)
+    | _ => none
+
+def c07HistWorld (init : List ((Nat × Nat) × Int)) : LabelMemo.World :=
+  fun r x => ((init.find? fun e => e.1 == (r, x)).map (·.2)).getD 0
+
+def c07HistEvents (groups : List Nat) (expos : List Rat) (s : String) : Option (List LabelMemo.Ev) :=
+  if s == "" then some [] else
+  ((s.splitOn "|").mapM fun (item : String) =>
+    match item.splitOn ":" with
+    | ["c", r, x] => do
+      let r ← r.toNat?
+      let x ← x.toNat?
+      some [LabelMemo.Ev.call (groups.map fun g => (r, 3 * x + g)) expos]
+    | ["m", r, x, ks] => do
+      let r ← r.toNat?
+      let x ← x.toNat?
+      let ks ← (ks.splitOn ",").mapM String.toInt?
+      some ((List.range ks.length).zip ks |>.map fun (g, k) => LabelMemo.Ev.modify r (3 * x + g) k)
+    | _ => none).map List.flatten
+
 def opsC07 : Handler := fun st fields =>
   match fields with
+  | ["c07.memo", f, v] =>
+    match (Generated.memoRows ++ Generated.ruleMemoRows).find? fun r => r.func == f && r.variant == v with
+    | some r =>
+      let b : Bool → String := fun x => if x then "1" else "0"
+      some (st, s!"ok\t{b r.cfg.memo},{b r.cfg.byReg},{b r.cfg.byExpr},{b r.cfg.byScale}\t{Generated.memoRows.length}\t{Generated.ruleMemoRows.length}")
+    | none => some (st, s!"norow\t-\t{Generated.memoRows.length}\t{Generated.ruleMemoRows.length}")
+  | ["c07.history", f, v, groupsS, exposS, initS, eventsS] =>
+    match (Generated.memoRows ++ Generated.ruleMemoRows).find? fun r => r.func == f && r.variant == v with
+    | none => some (st, "norow")
+    | some row =>
+      match (if groupsS == "" then some [] else (groupsS.splitOn ",").mapM String.toNat?),
+            (if exposS == "" then some [] else (exposS.splitOn ",").mapM c07Rat) with
+      | some groups, some expos =>
+        (match c07HistEvents groups expos eventsS with
+         | some evs =>
+           let w := c07HistWorld (c07HistInit initS)
+           let ans := LabelMemo.run row.cfg w [] evs
+           some (st, "ok\t" ++ " ".intercalate (ans.map fun l => ratStr l.scale) ++ s!"\t{LabelMemo.missesOf row.cfg w evs}")
+         | none => some (st, "bad-events"))
+      | _, _ => some (st, "bad-args")
   | ["c07.dump.counts"] =>
     some (st, s!"ok\t{Generated.ruleRows.length}\t{Generated.staticExpos.length}\t{(Generated.ruleRows.map (·.func)).eraseDups.length}")
   | ["c07.predict", f, v, om, opsS, flagsS, outcome, nleaves, sizesS, shapesS, scalesS, reducedS] =>
